@@ -82,6 +82,8 @@ type crashRun struct {
 	w  *workload
 	// hazards of the crash point being validated (see FSCtl.Hazards)
 	hazards []string
+	// desc describes the crash point being validated (cut operation, torn tail)
+	desc string
 }
 
 // knownAbort ends the validation of a crash point after a tolerated known
@@ -97,7 +99,7 @@ func (c *crashRun) fail(sig string, k int64, format string, args ...interface{})
 			panic(knownAbort{})
 		}
 	}
-	vfhelp.Fail(c.t, c.tr.Name+"-"+sig, "[%s] crash point %d: %s%s", c.tr.Name, k,
+	vfhelp.Fail(c.t, c.tr.Name+"-"+sig, "[%s] crash point %d (%s): %s%s", c.tr.Name, k, c.desc,
 		fmt.Sprintf(format, args...), history(c.w.render()))
 }
 
@@ -138,14 +140,14 @@ func (c *crashRun) runTo(open Opener, k int64, trace bool) (*vfs.MemFS, *FSCtl, 
 	}
 	bounds = append(bounds, ctl.Ops())
 	// power goes off at the latest now
-	mem.SetIgnoreSyncs(true)
+	forced := ctl.ForceCut()
 	func() {
 		defer func() { _ = recover() }()
 		_ = s.Close()
 	}()
-	cut, _, inflight := ctl.Cut()
+	_, _, inflight := ctl.Cut()
 	fl := -1
-	if cut {
+	if !forced {
 		switch {
 		case inflight >= 0:
 			fl = int(inflight)
@@ -240,7 +242,7 @@ func (c *crashRun) validate(open Opener, mem *vfs.MemFS, k int64, done, inflight
 			}
 		}
 		if matched < 0 && c.tr.Tan && inflight >= 0 && c.w.ops[inflight].Kind == OpImport &&
-			strings.Contains(first.Msg, "more than one log file have index missing") {
+			(c.w.ops[inflight].Rep == i || (c.tr.Mux && SameDB(acked.Reps[i], acked.Reps[c.w.ops[inflight].Rep]))) {
 			if c.st.Known(c.t, SigS11, "[%s] crash point %d inside %s: %s%s", c.tr.Name, k, c.w.ops[inflight].String(),
 				first.Msg, history(c.w.render())) {
 				labels["ended-by-known-"+SigS11] = true
@@ -262,7 +264,7 @@ func (c *crashRun) validate(open Opener, mem *vfs.MemFS, k int64, done, inflight
 			labels["interrupted-call-absent"] = true
 		}
 	}
-	if mis := CheckNodeList(s.DB, chosen); mis != nil {
+	if mis := CheckNodeList(s.DB, chosen, true); mis != nil {
 		c.fail("crash-"+mis.Sig, k, "%s", mis.Msg)
 	}
 	// the recovered store must accept further writes: two appends per live
@@ -276,7 +278,7 @@ func (c *crashRun) validate(open Opener, mem *vfs.MemFS, k int64, done, inflight
 			term := maxU(r.Term, 1)
 			u := pb.Update{ShardID: r.Shard, ReplicaID: r.Replica,
 				State:         pb.State{Term: term, Vote: r.State.Vote, Commit: r.Commit()},
-				EntriesToSave: genEntries(r.Last+1, 2, term, -1, uint64(k)+uint64(round), false)}
+				EntriesToSave: genEntries(r.Last+1, 2, term, -1, uint64(k)+uint64(round), 0)}
 			w := r.Shard%ExecShards + 1
 			byWorker[w] = append(byWorker[w], u)
 		}
@@ -323,8 +325,13 @@ func RunC10Crash(t *rapid.T, st *vfhelp.Stats, tr Traits, open Opener, cfg Crash
 	if done != len(c.w.ops) {
 		t.Fatalf("phase 1 executed %d of %d calls", done, len(c.w.ops))
 	}
+	// operations after the last call returned belong to the harness' own
+	// shutdown: the last crash point is total+1, "after the last call"
+	total := bounds[len(bounds)-1]
 	trace := ctl.TraceOps()
-	total := int64(len(trace))
+	if int64(len(trace)) > total {
+		trace = trace[:total]
+	}
 	_ = mem // the phase 1 FS is dropped; crash point total+1 below re-runs the workload
 	// choose crash points
 	points := map[int64]bool{total + 1: true} // total+1: power cut after the last call returned
@@ -392,7 +399,8 @@ func RunC10Crash(t *rapid.T, st *vfhelp.Stats, tr Traits, open Opener, cfg Crash
 	for _, k := range ks {
 		variants := []int{0}
 		mem, ctl, done, inflight, _ := c.runTo(open, k, false)
-		cut, kind, _ := ctl.Cut()
+		_, kind, _ := ctl.Cut()
+		cut := kind != 0 // kind 0: the cut was forced after the last call returned
 		torn := ctl.Torn()
 		if cfg.Exhaustive && torn != nil && len(torn.Data) > 0 {
 			variants = append(variants, len(torn.Data))
@@ -410,6 +418,14 @@ func RunC10Crash(t *rapid.T, st *vfhelp.Stats, tr Traits, open Opener, cfg Crash
 				}
 			}
 			labels := map[string]bool{}
+			c.desc = fmt.Sprintf("cut at a %s operation", kind)
+			if !cut {
+				c.desc = "cut after the last operation"
+			}
+			if tornLen > 0 && torn != nil {
+				c.desc += fmt.Sprintf(", torn tail: %d of %d unsynced bytes of %s (synced length %d) re-applied",
+					tornLen, len(torn.Data), torn.Path, torn.Synced)
+			}
 			applied := PowerCycle(mem, torn, tornLen)
 			if tornLen > 0 {
 				if !applied {
@@ -423,7 +439,7 @@ func RunC10Crash(t *rapid.T, st *vfhelp.Stats, tr Traits, open Opener, cfg Crash
 			}
 			nontrivial := false
 			if !cut {
-				labels["cut-not-reached"] = true
+				labels["cut-after-last-call"] = true
 			} else {
 				labels["cut-op-"+kind.String()] = true
 				switch {
